@@ -4,6 +4,10 @@ use crate::parser::utils::*;
 use serde::{Deserialize, Serialize};
 use std::collections::HashSet;
 
+/// Two amounts are equal when they differ by less than half of the smallest unit any currency
+/// has (four decimals); 0.01 would let a difference of one cent pass.
+const AMOUNT_EPSILON: f64 = 0.00005;
+
 /// Sequence B - Transaction details
 #[derive(Debug, Clone, Serialize, Deserialize, PartialEq)]
 #[cfg_attr(feature = "jsonschema", derive(schemars::JsonSchema))]
@@ -408,7 +412,7 @@ impl MT101 {
         for (idx, transaction) in self.transactions.iter().enumerate() {
             if let Some(ref _field_33b) = transaction.field_33b {
                 // Check if amount in field_32b is zero
-                let amount_is_zero = transaction.field_32b.amount.abs() < 0.01;
+                let amount_is_zero = transaction.field_32b.amount.abs() < AMOUNT_EPSILON;
 
                 if amount_is_zero {
                     // Field 33B present AND 32B amount = 0 → field 36 NOT allowed
@@ -632,7 +636,7 @@ impl MT101 {
 
         for (idx, transaction) in self.transactions.iter().enumerate() {
             // Check if amount in field_32b is zero
-            let amount_is_zero = transaction.field_32b.amount.abs() < 0.01;
+            let amount_is_zero = transaction.field_32b.amount.abs() < AMOUNT_EPSILON;
 
             if amount_is_zero {
                 // Check if field 23E has EQUI code
